@@ -324,6 +324,13 @@ func (s *streamSession) exchange(in *input, wantAnswer bool) (o observation) {
 		}
 
 		if o.res.Outcome == tbench.Answered {
+			if raw := o.res.One(); len(raw) < 2 || len(in.wire) < 2 || raw[0] != in.wire[0] || raw[1] != in.wire[1] {
+				// Not the response to this request: the stream is out of
+				// step; start the next request on a fresh connection so that
+				// one fault is reported once.
+				s.drop()
+			}
+
 			return o
 		}
 
@@ -503,6 +510,17 @@ func (s *doqSession) exchange(in *input, wantAnswer bool) (o observation) {
 			_ = s.c.Close()
 			s.c = nil
 			if o.res.QUICKind == "application" && o.res.QUICRemote {
+				if wantAnswer && o.res.SendElapsed > decisiveWindow {
+					// The server gives a stream two seconds to deliver its
+					// query; the harness itself was too slow to be sure.
+					s.e.r.Bucket("ambiguous:quic-slow-send", 1)
+					if attempt == 0 {
+						continue
+					}
+
+					o.ambiguous = fmt.Sprintf("query took %s to send", o.res.SendElapsed)
+				}
+
 				return o
 			}
 
@@ -790,9 +808,11 @@ func (e *env) account(p *pathDef, in *input, exp expectation, o observation) {
 		e.mu.Unlock()
 	}
 
-	e.sample(p.name+"|"+group, map[string]any{
-		"path": p.name, "input": in.witness(), "expected": exp.kind.String() + " (" + exp.why + ")", "observed": o.res.String(),
-	})
+	if len(ps) == 0 {
+		e.sample(p.name+"|"+group, map[string]any{
+			"path": p.name, "input": in.witness(), "expected": exp.kind.String() + " (" + exp.why + ")", "observed": o.res.String(),
+		})
+	}
 }
 
 // sample records one written-out case for a few chosen (path, class) pairs.
